@@ -93,7 +93,8 @@ def lifespan_program(case: Dict[str, Any]) -> list:
                          _failed("lifespan.startup.failed", case)])
         return prog
     elif s == "raise":
-        prog.append(["raise", "ValueError"])
+        # from a task group of the application's own the error arrives as an exception group
+        prog.append(["raise_group"] if case.get("in_group") else ["raise", "ValueError"])
         return prog
     elif s == "hang":
         prog.append(["sleep", 1e7])
@@ -115,7 +116,7 @@ def lifespan_program(case: Dict[str, Any]) -> list:
         prog.append(["send_in_group" if case.get("in_group") else "send",
                      _failed("lifespan.shutdown.failed", case)])
     elif e == "raise":
-        prog.append(["raise", "ValueError"])
+        prog.append(["raise_group"] if case.get("in_group") else ["raise", "ValueError"])
     elif e == "hang":
         prog.append(["sleep", 1e7])
     else:
